@@ -294,6 +294,9 @@ class Num:
         if k == "cast":
             src = self.aff(t[1])
             if src is None:
+                if self.ty_of(t[1]) == "bool" and self.cfg.width(t[2]) is not None:
+                    # a truth value as an integer: 0 or 1
+                    return self.atom(t, lambda a: [le(const(0), a), le(a, const(1))])
                 return None
             wt, ws = self.cfg.width(t[2]), self.cfg.width(self.ty_of(t[1]))
             if t[2] in SIGNED or self.ty_of(t[1]) in SIGNED:
@@ -399,12 +402,20 @@ class Num:
             if a is None:
                 continue
             out.append(le(const(1), st))
+            # 2^a <= 2^K when a <= K
+            for K in (7, 8, 15, 16, 31, 32, 62, 63, 64):
+                if lp.entails(base, le(a, const(K))):
+                    out.append(le(st, const(1 << K)))
+                    break
             for e in logs:
                 r, x = self.aff(e[3]), self.aff(e[2][0])
                 if r is None or x is None:
                     continue
                 if lp.entails(base, le(a, r)):
                     out.append(le(st, x))
+                if lp.entails(base, le(r, a)):
+                    # x < 2^(floor(log2 x) + 1) <= 2 * 2^a
+                    out.append(le(x, st.scale(2) - const(1)))
         return out
 
     # -- constraints --------------------------------------------------------
